@@ -5,6 +5,7 @@ use crate::common::Rng;
 use crate::corpus;
 
 pub const SPICE: &[&str] = &[
+    "0xFFFFFFFFFFFFFFFFF", "0x0123456789abcdef0123456789abcdef", "12345678901234567890",
     "e.g.", "i.e.", "N.S.A.", "et al.", "etc.", "vs.", "1st", "22nd", "3rd", "11th", "1980s", "0x1F", "2stuff",
     "1.14.4.", "3.5", "1e5", "$5", "5%", "don't", "it's", "a's", "5's", "O'Neil", "the how", "better then ",
     "{@link Foo}", "{@link", "[[a|b]]", "[[a|b|c]]", "[[||]]", "[[|b|c]]", "\\[[a|b|c]]", "[[a|[b](x)|c]]", "[[a|", "![[a|b]]", "[[a]]", "[a][b]", "[^1]", "[^1]: note", "[a-z0-9]", "[a-z", "> quote", ">", "\\begin{code}", "\\end{code}",
@@ -13,6 +14,13 @@ pub const SPICE: &[&str] = &[
     "\t", "\t\t ", " \t ", "  ", "\n", "\n\n", "\r\n", "\r", "#", "##", "*", "**", "`", "```", "<b>", "</p>", "&amp;",
     "#let", "$x$", "@ref", "<label>", "//", "/*", "*/", "--", "{-", "-}", "=begin", "TODO:", "harper:ignore",
     "spellchecker:ignore", "#!/bin/sh", "@param", "@return", "//go:generate", "1980st", "2010th", "007th",
+];
+
+/// lexer corner cases shared by the C01 and C02 corpora
+pub const LEXER_CORNERS: &[&str] = &[
+    "0xFFFFFFFFFFFFFFFFF", "0x1ffffffffffffffff in the log", "0x0123456789abcdef0123456789abcdef", "0x", "0x1G", "1000000000000011th",
+    "12345678901234567890 123456789012345.678901234567890", "0.000000000000000000001e10 1e-320 9007199254740993", "1e999$", "1.e5 1e+5 1e 1.",
+    "٣1 ½ 1½", "[a-z0-9] [a-z [a-] [ab]", "a'b'c'd", "....", "\"a\" \"b", "http://a.b/c user@x.y www.a.b. a.b", "x:y //", "İstanbul ﬁ ß", "don’t",
 ];
 
 pub fn sentence(rng: &mut Rng) -> String {
